@@ -126,4 +126,114 @@ theorem parseI64_intDec (i : Int) (h1 : -9223372036854775808 ≤ i) (h2 : i < 92
       simp only [List.isEmpty_cons, Bool.false_eq_true, if_false, hp, this, if_true]
       congr 1; omega
 
+/-! ### conforming values by kind -/
+
+def InI64 (i : Int) : Prop := -9223372036854775808 ≤ i ∧ i < 9223372036854775808
+
+/-- what `FieldType::from_spec_with_nullable` / DEFINE can produce: `T`, `T | null` for a
+primitive `T`, or a (non-optional) enum -/
+def FlatType : FieldType → Prop
+  | .optional (.optional _) => False
+  | .optional (.enum _) => False
+  | _ => True
+
+/-- the value kinds the per-kind theorems of C07 cover, with the column type they go to -/
+def Kinds (p : Phys) (j : Json) : Prop :=
+    (j = .null)
+    ∨ (∃ b, j = .bool b ∧ p = .bool)
+    ∨ (∃ i, InI64 i ∧ j = intJson i ∧ (p = .i64 ∨ p = .f64))
+    ∨ (∃ u, u < 18446744073709551616 ∧ j = .num (.pos u) ∧ (p = .u64 ∨ p = .f64))
+    ∨ (∃ b, isFinite b = true ∧ j = .num (.flt b) ∧ p = .f64)
+    ∨ (∃ s, j = .str s ∧ p = .varBytes)
+
+theorem intJson_pos (u : Nat) : intJson (u : Int) = .num (.pos u) := by
+  unfold intJson
+  have : ¬ ((u : Int) < 0) := by omega
+  simp [this]
+
+theorem intJson_neg (m : Nat) (h : 1 ≤ m) : intJson (-(m : Int)) = .num (.neg m) := by
+  unfold intJson
+  have : (-(m : Int)) < 0 := by omega
+  simp only [this, if_true]
+  congr 2; omega
+
+theorem kinds_pos_int (p : Phys) (u : Nat) (h : u ≤ i64Max) (hp : p = .i64 ∨ p = .f64) :
+    Kinds p (.num (.pos u)) :=
+  Or.inr (Or.inr (Or.inl ⟨(u : Int), ⟨by omega, by unfold i64Max at h; omega⟩, (intJson_pos u).symm, hp⟩))
+
+theorem kinds_neg_int (p : Phys) (m : Nat) (h1 : 1 ≤ m) (h2 : m ≤ i64Max + 1) (hp : p = .i64 ∨ p = .f64) :
+    Kinds p (.num (.neg m)) :=
+  Or.inr (Or.inr (Or.inl ⟨-(m : Int), ⟨by unfold i64Max at h2; omega, by omega⟩, (intJson_neg m h1).symm, hp⟩))
+
+theorem conforming_base (bt : FieldType) (hb : ∀ t, bt ≠ .optional t) (j : Json)
+    (hc : conforms bt j = true) : Kinds (physOf bt) j := by
+  cases bt with
+  | optional t => exact absurd rfl (hb t)
+  | string =>
+    cases j <;> simp [conforms] at hc
+    exact Or.inr (Or.inr (Or.inr (Or.inr (Or.inr ⟨_, rfl, rfl⟩))))
+  | enum vs =>
+    cases j <;> simp [conforms] at hc
+    exact Or.inr (Or.inr (Or.inr (Or.inr (Or.inr ⟨_, rfl, rfl⟩))))
+  | bool =>
+    cases j <;> simp [conforms] at hc
+    exact Or.inr (Or.inl ⟨_, rfl, rfl⟩)
+  | u64 =>
+    cases j with
+    | num n =>
+      cases n <;> simp [conforms] at hc
+      exact Or.inr (Or.inr (Or.inr (Or.inl ⟨_, hc, rfl, Or.inl rfl⟩)))
+    | _ => simp [conforms] at hc
+  | i64 =>
+    cases j with
+    | num n =>
+      cases n with
+      | pos u => simp [conforms] at hc; exact kinds_pos_int _ u hc (Or.inl rfl)
+      | neg m => simp [conforms] at hc; exact kinds_neg_int _ m hc.1 hc.2 (Or.inl rfl)
+      | flt b => simp [conforms] at hc
+    | _ => simp [conforms] at hc
+  | timestamp =>
+    cases j with
+    | num n =>
+      cases n with
+      | pos u => simp [conforms] at hc; exact kinds_pos_int _ u hc (Or.inl rfl)
+      | neg m => simp [conforms] at hc; exact kinds_neg_int _ m hc.1 hc.2 (Or.inl rfl)
+      | flt b => simp [conforms] at hc
+    | _ => simp [conforms] at hc
+  | date =>
+    cases j with
+    | num n =>
+      cases n with
+      | pos u => simp [conforms] at hc; exact kinds_pos_int _ u hc (Or.inl rfl)
+      | neg m => simp [conforms] at hc; exact kinds_neg_int _ m hc.1 hc.2 (Or.inl rfl)
+      | flt b => simp [conforms] at hc
+    | _ => simp [conforms] at hc
+  | f64 =>
+    cases j with
+    | num n =>
+      cases n with
+      | pos u =>
+        simp [conforms] at hc
+        exact Or.inr (Or.inr (Or.inr (Or.inl ⟨_, hc, rfl, Or.inr rfl⟩)))
+      | neg m => simp [conforms] at hc; exact kinds_neg_int _ m hc.1 hc.2 (Or.inr rfl)
+      | flt b =>
+        simp [conforms] at hc
+        exact Or.inr (Or.inr (Or.inr (Or.inr (Or.inl ⟨_, hc.1, rfl, rfl⟩))))
+    | _ => simp [conforms] at hc
+
+/-- what the unified round-trip theorem needs, by value kind (everything the code may alter is
+excluded here and refuted separately) -/
+def Safe (x : Ext) (p : Phys) : Json → Prop
+  | .null => p ≠ .varBytes ∧ p ≠ .i32Date ∧ x.parseF64 [] = none
+  | .bool _ => True
+  | .str s => validUtf8 s = true ∧ toJson x (.utf8 s) = .str s ∧ addPayloadField x s = .utf8 s
+  | .num (.flt b) => x.parseF64 (x.fmtF64 b) = some b ∧ x.walFloat b = b
+  | .num (.pos u) => (u > i64Max → x.jsonParse (natDec u) = .number (.pos u)) ∧ p ≠ .f64
+  | .num (.neg _) => p ≠ .f64
+  | .nested _ => False
+
+theorem jsonSame_intJson (i : Int) : jsonSame (intJson i) (intJson i) = true := by
+  unfold intJson
+  split <;> simp [jsonSame, JNum.int?]
+
 end Snel.Value
